@@ -2,11 +2,12 @@
 # See https://github.com/Xzya/django-web-components/blob/b43eb0c832837db939a6f8c1980334b0adfdd6e4/django_web_components/templatetags/components.py  # noqa: E501
 # And https://github.com/Xzya/django-web-components/blob/b43eb0c832837db939a6f8c1980334b0adfdd6e4/django_web_components/attributes.py  # noqa: E501
 
+import re
 from typing import Any, Dict, Mapping, Optional, Tuple
 
 from django.template import Context
 from django.utils.html import conditional_escape, format_html
-from django.utils.safestring import SafeString, mark_safe
+from django.utils.safestring import SafeData, SafeString, mark_safe
 
 from django_components.node import BaseNode
 
@@ -85,6 +86,12 @@ class HtmlAttrsNode(BaseNode):
         return attributes_to_string(final_attrs)
 
 
+# Characters that cannot be part of an HTML attribute name (white space, controls, quotes, `>`, `/`, `=`),
+# plus `&` and `<`, which escaping would rewrite. A name with any of these cannot be emitted such that
+# an HTML parser reads back the one attribute that was given.
+_INVALID_ATTR_NAME_RE = re.compile("[\\x00-\\x20\\x7f-\\x9f\"'>/=&<]")
+
+
 def attributes_to_string(attributes: Mapping[str, Any]) -> str:
     """Convert a dict of attributes to a string."""
     attr_list = []
@@ -92,6 +99,8 @@ def attributes_to_string(attributes: Mapping[str, Any]) -> str:
     for key, value in attributes.items():
         if value is None or value is False:
             continue
+        if not isinstance(key, SafeData) and (not str(key) or _INVALID_ATTR_NAME_RE.search(str(key))):
+            raise ValueError(f"Invalid HTML attribute name {str(key)!r}")
         if value is True:
             attr_list.append(conditional_escape(key))
         else:
